@@ -558,7 +558,8 @@ pub fn hazard_program(rng: &mut Rng, o: HazardOpts) -> Vec<u8> {
                 let r = rng.below(3) as u8;
                 let newop = *rng.pick(&[0x44u8, 0x50, 0x30, 0x02, 0x04, 0x38]) | (rng.below(3) as u8 & 3);
                 p.ld_imm(r, if newop & 0xFC == 0x00 { 0x02 } else { newop });
-                let target = p.here().wrapping_add(4 + rng.below(3) as u8);
+                // (3 = the byte fetched right after this store)
+                let target = p.here().wrapping_add(3 + rng.below(4) as u8);
                 p.st_abs(target, r);
                 for _ in 0..4 {
                     p.un(*rng.pick(&[0x44u8, 0x50, 0x48]), rng.below(3) as u8);
@@ -775,8 +776,11 @@ pub fn hazard_setup(rng: &mut Rng, wild_p: u64) -> Setup {
 /// seeded address, random operands / registers / RAM (pointers sometimes into I/O space), flag
 /// nibble `f`. Shared by C09 (control flow of every form) and C01/C15 (state and cost of every form).
 pub fn form_case_setup(rng: &mut Rng, b1: u8, b2: Option<u8>, f: u8) -> Setup {
-    let at = 0x10 + rng.below(0x70) as u8;
+    // mostly mid-RAM; sometimes right at the RAM / I-O edge so that operand bytes are fetched from
+    // 0xEF / 0xF0.. (bytes beyond 0xEF come from the I/O registers)
+    let at = if rng.chance(1, 6) { 0xEA + rng.below(6) as u8 } else { 0x10 + rng.below(0x70) as u8 };
     let mut bytes = uniform_image(rng, 240);
+    bytes.resize(245, 0);
     bytes[at as usize] = b1;
     let mut pos = at as usize + 1;
     if b1 >= 0xF0 {
@@ -807,5 +811,6 @@ pub fn form_case_setup(rng: &mut Rng, b1: u8, b2: Option<u8>, f: u8) -> Setup {
     regs[3] = at;
     regs[4] = (regs[4] & 0xF0) | (f & 0x0F);
     regs[5] = valid_sp(rng, 0);
+    bytes.truncate(240);
     Setup { image: Image { bytes, stack: 0, limit: Some(0xFF), keep_limit: false }, regs: Some(regs), pokes: vec![], inputs: [rng.u8(), rng.u8(), rng.u8(), rng.u8()], asm_mode: false }
 }
